@@ -77,7 +77,7 @@ def projection(st, maxunits):
             maxunits - st['written'])
 
 
-def schedules_from_graph(g, maxunits, reader_names, inter):
+def schedules_from_graph(g, maxunits, reader_names, inter, include_blocked=False):
     """For every distinct inter-call state (by projection): a shortest prefix from the initial
     state, then every path through one more call until it returns (or blocks); reader actions are
     abstracted to a marker ('R',), peer actions keep their label.  Returns the distinct schedules."""
@@ -125,8 +125,22 @@ def schedules_from_graph(g, maxunits, reader_names, inter):
                     out.append((root, pre + list(acc)))
                 return
             outs = [(l, d) for l, d in g.edges[node] if d != node]
+            st_ = g.nodes[node]
+            if (include_blocked and st_.get('proc') == 'run' and st_.get('flagEof') and not st_.get('terminated')
+                    and st_['pc'] in ('alive1', 'alive2', 'eof_alive_raise', 'eof_alive_ret')):
+                # the reader sits in the blocking liveness check while the child keeps running: replay up to here
+                key = json.dumps([root, pre + acc + [['R']]])
+                if key not in seen:
+                    seen.add(key)
+                    out.append((root, pre + list(acc) + [('R',)]))
             if not outs:
-                return          # the reader is blocked for ever here (C05 looks at those states)
+                # the reader is blocked for ever here (only the C05 check replays those)
+                if include_blocked:
+                    key = json.dumps([root, pre + acc])
+                    if key not in seen:
+                        seen.add(key)
+                        out.append((root, pre + list(acc)))
+                return
             for l, d in outs:
                 acc.append(item(l))
                 dfs(d, acc)
@@ -214,6 +228,9 @@ def judge_contract(out):
                 bad.append(('C05:timeout-before-deadline', i))
             if len(delivered) < c['written_before']:
                 bad.append(('C05:timeout-although-data-was-readable', i))
+        elif c['kind'] == 'BLOCK':
+            if c['tmo'] != -1:
+                bad.append(('C05:blocks-after-hangup-without-exit', i))
         elif c['kind'].startswith('ERR:'):
             bad.append(('C05:poll-raises-other-exception' if c['tmo'] == 0 else 'C04:other-exception-instead-of-eof-or-timeout', i))
         if c['kind'] != 'BLOCK' and c['tmo'] != -1 and c['elapsed'] > c['tmo']:
@@ -236,7 +253,7 @@ def make_matcher(g, transport):
     return m, call_label, ret_ok
 
 
-def run_transport(ctx, pool, transport):
+def run_transport(ctx, pool, transport, include_blocked=False):
     quick = ctx.quick()
     T = TRANSPORTS[transport]
     consts = T['consts'](quick)
@@ -251,7 +268,7 @@ def run_transport(ctx, pool, transport):
         if r2['violated'] != 'EofOnlyWhenDrained':
             raise tlc.TLCError('PtyRead with Fixed=FALSE should violate EofOnlyWhenDrained, got %s' % r2['violated'])
     reader = set().union(*T['kinds'].values())
-    scheds, nstates, npaths = schedules_from_graph(g, maxunits, reader, T['inter'])
+    scheds, nstates, npaths = schedules_from_graph(g, maxunits, reader, T['inter'], include_blocked)
     rng = random.Random(ctx.seed * 31 + 5)
     cap = (3000 if quick else 60000) // T['variants']
     if len(scheds) > cap:
